@@ -1,6 +1,7 @@
 package checks
 
 import (
+	"bytes"
 	"crypto/x509"
 	"encoding/pem"
 	"fmt"
@@ -104,6 +105,22 @@ func c02Run(r *core.Run) {
 		cases = append(cases, c02Case{"intel-lookalike:quote-under-I|pool=nil", qI, nil, world.MustReject, "the quote's root only looks like the embedded Intel root (same subject, serial and key identifier, other key)"})
 		cases = append(cases, c02Case{"intel-lookalike:quote-under-I|pool=A", qI, pools["A"], world.MustReject, "root of PKI I is not in the pool"})
 		r.Probe("intel_lookalike_root")
+	}
+	// 1d. a self-consistent quote under the foreign PKI B whose leaf (or intermediate) is not yet valid
+	// at the verification time: "not yet valid" must not short-cut the anchoring in the pool
+	{
+		future := world.Window{NotBefore: w.Times[world.TPck].AddDate(0, 0, 30), NotAfter: w.Times[world.TPck].AddDate(8, 0, 0)}
+		sp := w.P.PCKSp
+		sp.Win = future
+		qf, _ := quoteUnder(w, B, &sp)
+		cases = append(cases, c02Case{"not-yet-valid:leaf-under-B|pool=A", qf, pools["A"], world.MustReject, "the chain is under root B, which is not in the pool (and its leaf is not yet valid)"})
+		cases = append(cases, c02Case{"not-yet-valid:leaf-under-B|pool=nil", qf, nil, world.MustReject, "the chain is under root B; only the embedded Intel root is trusted"})
+		B2 := world.NewPKI(t, "B2", w.Epoch, A)
+		B2.PlatSpec.Win = future
+		B2.Rebuild()
+		qf2, _ := quoteUnder(w, B2, &sp)
+		cases = append(cases, c02Case{"not-yet-valid:intermediate-under-B|pool=A", qf2, pools["A"], world.MustReject, "the chain is under a foreign root (and its intermediate is not yet valid)"})
+		r.Probe("foreign_chain_not_yet_valid")
 	}
 	// 2. one chain element replaced by its look-alike (pool = {A})
 	{
@@ -428,6 +445,47 @@ func c02RootOfTrust(r *core.Run, w *world.World, A, B, C *world.PKI, qA, qB *wor
 		}
 		r.EndItem()
 	}
+	// a bundle file is rotated in place (same path, same size, same modification time): the next
+	// configuration load must trust what the file lists NOW
+	if r.Item("rot:bundle-rotated-in-place") {
+		p := filepath.Join(dir, "rotating.pem")
+		size := len(pemA)
+		if len(pemB) > size {
+			size = len(pemB)
+		}
+		pad := func(b []byte) []byte { return append(append([]byte(nil), b...), bytes.Repeat([]byte("\n"), size-len(b))...) }
+		stamp := w.Epoch
+		load := func(content []byte) *verify.Options {
+			os.WriteFile(p, pad(content), 0o600)
+			os.Chtimes(p, stamp, stamp)
+			o, err := verify.RootOfTrustToOptions(&ccpb.RootOfTrust{CabundlePaths: []string{p}})
+			if err != nil {
+				return nil
+			}
+			o.Getter, o.Now = &failGetter{}, timeSet(w.Times)
+			return o
+		}
+		first := load(pemA)
+		second := load(pemB)
+		r.Eval()
+		r.State("rot bundle-rotated-in-place")
+		if first != nil && second != nil {
+			if !verifyRaw(qA.Bytes(), first).Accepted() {
+				r.Count("control_failed", 1)
+			}
+			okB := verifyRaw(qB.Bytes(), second).Accepted()
+			okA := verifyRaw(qA.Bytes(), second).Accepted()
+			r.Eventf("bundle rotated A->B in place: quote under B accepted=%v, quote under A accepted=%v", okB, okA)
+			if okA {
+				r.Violate("C02:rot-rotated-bundle-still-trusts-old-root", "the bundle file now lists only root B (same path, size and mtime as before), yet a quote under the withdrawn root A is accepted")
+			}
+			if !okB {
+				r.Violate("C02:rot-rotated-bundle-new-root-not-trusted", "the bundle file now lists root B (same path, size and mtime as before), yet a quote under B is rejected")
+			}
+		}
+		r.Fault("disk:bundle_rotated_in_place", true)
+		r.EndItem()
+	}
 	r.Probe("root_of_trust_configs")
 }
 
@@ -449,6 +507,6 @@ func init() {
 			return 48
 		},
 		Run:       c02Run,
-		MustProbe: []string{"lookalike_own_key_ids", "lookalike_same_key_ids", "root_of_trust_configs", "empty_config_uses_embedded_root", "intel_lookalike_root"},
+		MustProbe: []string{"foreign_chain_not_yet_valid", "lookalike_own_key_ids", "lookalike_same_key_ids", "root_of_trust_configs", "empty_config_uses_embedded_root", "intel_lookalike_root"},
 	})
 }
